@@ -85,6 +85,28 @@ def ompLoopPinned (reprod : Bool) (v : OmpState → Bool) : Prog OmpState :=
 def ompLoopFixed (reprod : Bool) (v : OmpState → Bool) : Prog OmpState :=
   validateThen v (.prim (ompDeclare reprod) (.call (fun _ => parallelLoopApply v) .done))
 
+/-! ## OMPTaskTrans: the `collapse` option is refused by `_directive`, after the loop was detached -/
+
+structure TaskState where
+  inlined : Bool     -- kernels / calls inside the loop have been inlined
+  detached : Bool    -- the loop has been removed from its parent
+  wrapped : Bool     -- the directive (holding the loop) has been inserted
+  deriving DecidableEq, Repr
+
+/-- pinned: validate; inline; `ParallelLoopTrans.apply` = validate, `node.detach()`, `_directive(...)`
+    (raises when `collapse` is set), insert. -/
+def ompTaskPinned (collapseSet : Bool) (v : TaskState → Bool) : Prog TaskState :=
+  validateThen v
+    (.prim (fun s => { s with inlined := true })
+      (.call (fun _ => validateThen v
+          (.prim (fun s => { s with detached := true })
+            (.check (fun _ => !collapseSet)
+              (.prim (fun s => { s with wrapped := true }) .done)))) .done))
+
+/-- fixed: `validate` refuses a `collapse` option. -/
+def ompTaskFixed (collapseSet : Bool) (v : TaskState → Bool) : Prog TaskState :=
+  ompTaskPinned collapseSet (fun s => v s && !collapseSet)
+
 /-! ## ArrayReductionBaseTrans (Sum2LoopTrans, Product2LoopTrans, Maxval2LoopTrans, Minval2LoopTrans) -/
 
 structure RedState where
